@@ -7,12 +7,6 @@ import Spydr.Eblif.LemmasStmt
 
 namespace Spydr.Eblif
 
-/-- (parent, model, EBLIF.type) of every instance, in creation order -/
-def instKinds (st : St) : List (String × String × String) :=
-  st.insts.map (fun i => (i.parent, i.model, i.typ))
-
-def kindOf (i : Inst) : String × String × String := (i.parent, i.model, i.typ)
-
 theorem map_updIdx (l : List Inst) (idx : Nat) (f : Inst → Inst) (hf : ∀ i, kindOf (f i) = kindOf i) :
     (l.zipIdx.map (fun (p : Inst × Nat) => if p.2 = idx then f p.1 else p.1)).map kindOf = l.map kindOf := by
   rw [List.map_map]
@@ -133,14 +127,6 @@ theorem ik_applyInfo {idx : Nat} {parent : String} (l : List InfoStmt) :
       rw [ih h, ik_rename h1]; exact ik_updInst _ _ _ (fun _ => rfl)
     | attr k v => unfold applyInfo at h; rw [ih h]; exact ik_updInst _ _ _ (fun _ => rfl)
     | param k v => unfold applyInfo at h; rw [ih h]; exact ik_updInst _ _ _ (fun _ => rfl)
-
-/-- what a statement contributes to the instance list -/
-def stmtKind (cur : String) : Stmt → List (String × String × String)
-  | Stmt.subckt gate model _ _ => [(cur, model, if gate then "EBLIF.gate" else "EBLIF.subckt")]
-  | Stmt.names nets _ _ => [(cur, "logic-gate_" ++ natStr (nets.length - 1), "EBLIF.names")]
-  | Stmt.latch _ _ => [(cur, "generic-latch", "EBLIF.latch")]
-  | Stmt.conn _ _ => []
-  | Stmt.blackbox => []
 
 theorem ik_elabStmt {st st' : St} {cur : String} {s : Stmt} (h : elabStmt st cur s = Except.ok st') :
     instKinds st' = instKinds st ++ stmtKind cur s := by
